@@ -142,7 +142,9 @@ def fuzz_replay(tag, fuzz_args, expr_args, timeout=1200, mode="expr"):
             rec.kill()
             raise ToolError(f"timeout in fuzz pipeline {tag}")
         gen.wait()
-    if rec.returncode != 0 or gen.returncode != 0:
+    if gen.returncode != 0:
+        raise ToolError(f"input generator failed in {tag} (rc={gen.returncode}) - bug in the machinery")
+    if rec.returncode != 0:
         # the recorder process itself died: the library aborted (stack overflow / abort), which is data
         return {"crashed": True, "rc": [gen.returncode, rec.returncode],
                 "stderr": err.decode(errors="replace")[-800:]}, obsp
